@@ -416,6 +416,7 @@ pub struct KnownFinding {
     pub what: String,
     pub scenario: String,
     pub tape: Vec<u64>,
+    pub tier: Tier,
 }
 
 pub fn load_known_findings(path: &str) -> Result<Vec<KnownFinding>, String> {
@@ -436,6 +437,7 @@ pub fn load_known_findings(path: &str) -> Result<Vec<KnownFinding>, String> {
                 trigger: k.get("trigger").and_then(Value::as_str).map(str::to_string),
                 what: s("what"),
                 scenario: s("scenario"),
+                tier: if s("tier") == "thorough" { Tier::Thorough } else { Tier::Quick },
                 tape: k
                     .get("tape")
                     .and_then(Value::as_array)
@@ -707,7 +709,7 @@ pub fn run_check(spec: &CheckSpec, tier: Tier) -> i32 {
     for kf in known.iter().filter(|k| k.property == spec.property) {
         let mut reproduced = false;
         if let Some(plan) = spec.plans.iter().find(|p| p.scenario.name() == kf.scenario) {
-            let r = exec_run(plan.scenario.as_ref(), Tape::from_replay(kf.tape.clone()), tier, false);
+            let r = exec_run(plan.scenario.as_ref(), Tape::from_replay(kf.tape.clone()), kf.tier, false);
             if let Some(v) = &r.violation {
                 if matches_known(kf, spec.property, v) {
                     reproduced = true;
@@ -898,6 +900,33 @@ pub fn replay_file(path: &str, all: &[CheckSpec]) -> i32 {
         None => {
             println!("not reproduced: the recorded tape no longer violates {property}");
             0
+        }
+    }
+}
+
+
+/// `a2lsim one <property> <scenario> <tier> <run>`: execute one run of a search by its index, shrink and write a replay file
+pub fn run_one(all: &[CheckSpec], property: &str, scenario: &str, tier: Tier, run: u64) -> i32 {
+    let verif_seed = env_u64("VERIF_SEED", 1);
+    let Some(plan) = all.iter().filter(|c| c.property == property).flat_map(|c| c.plans.iter()).find(|p| p.scenario.name() == scenario) else {
+        eprintln!("HARNESS ERROR: unknown property/scenario {property}/{scenario}");
+        return 2;
+    };
+    let scn = plan.scenario.as_ref();
+    let seed = run_seed(verif_seed, property, scn.name(), run);
+    let r = exec_run(scn, Tape::from_seed(seed), tier, false);
+    match r.violation {
+        None => {
+            println!("run {run}: no violation (evals {}, nontrivial {}, vacuous {})", r.evals, r.nontrivial, r.vacuous);
+            0
+        }
+        Some(v) => {
+            let (stape, sv, st) = shrink(scn, tier, r.tape.clone(), v, 3000, 60.0);
+            let rr = exec_run(scn, Tape::from_replay(stape.clone()), tier, true);
+            let path = write_replay(property, scn, verif_seed, run, tier, &stape, st.from_len, &sv, &rr.log);
+            println!("violation: oracle={} class={} (tape {} -> {})\n  {}", sv.oracle, sv.class, st.from_len, st.to_len, sv.detail);
+            println!("VIOLATION property={property} replay={path}");
+            1
         }
     }
 }
